@@ -135,3 +135,28 @@ func propC06(w *World, r *Run) {
 	ruleSoleWriter(w, r, "C06.c")
 	ruleStorageRefusal(w, r, "C06.d")
 }
+
+func init() {
+	props["C10"] = propC10
+	props["C11"] = propC11
+}
+
+func propC10(w *World, r *Run) {
+	r.expl = "Decides the endpoint's status mapping by composition: the outcome classes (error sentinel, bytes class) of the real Update, taken from its path summaries, are matched against handleUpdate's paths (facts on trusted == nil, the parse of the returned checkpoint, the sentinel comparisons), and each class must be answered by exactly one path with the protocol's status: accepted 200, unknown log 404, no valid signature 403, old size too large 400, stale 409 + text/x.tlog.size + \"%d\\n\" of the current size, root mismatch 409, bad proof 422, anything else 500 (STATUS-TABLE); the limiter is consulted first and a refused request is answered 429 without touching the body (RATE-LIMIT-FIRST); every path writes exactly one documented status before any body (EXACTLY-ONE-STATUS); the 200 body is built from signatures verified under the witness's own verifier on the bytes Update returned (BODY-PROVENANCE); malformed body/no first line -> 400, unknown origin -> 404 without reaching the witness, and the witness is asked with (ID(first line), configured origin, parseBody's results unmodified) (PRE-CHECKS)."
+	r.notdec = []string{"TLS/HTTP2 transport and the reverse connection", "that the cosignature verifies (crypto)", "the limiter's numeric rate"}
+	r.trusted = append(tbCommon, "net/http ResponseWriter contract, rate.Limiter.Allow, formats/log.ParseCheckpoint")
+	a := analyseUpdate(w, r)
+	ruleStatusTable(w, r, a, "C10.a")
+	ruleServeHTTP(w, r, "C10.b", "C10.c", "C10.e")
+	ruleSentinelExhaustive(w, r, a, "C10.a")
+}
+
+func propC11(w *World, r *Run) {
+	r.expl = "Round-trip equality of runtime values is not a static target. Decides only: writer (cmd/feedbastion bastionClient.Update, Proof.Marshal) and reader (bastion.parseBody, Proof.Unmarshal) use the same base64 encoding object, the same line terminator, and the writer's size line carries the prefix the reader requires (CODEC-AGREEMENT); every error return of parseBody hands back nothing else, no nil-error return happens before the blank separator was consumed, Unmarshal assigns its receiver only on success (REFUSAL-IS-TOTAL); protocol integers reachable from the endpoint are parsed by a whole-string parser, the fmt.Sscan family is disallowed (STRICT-INTEGER); proof elements are appended one per decoded line in read order and the checkpoint is the unmodified remainder of the reader (ORDER-PRESERVING)."
+	r.notdec = []string{"equality after a round trip for all values (observation O1: the empty proof list does not round-trip through Marshal/Unmarshal, which these rules cannot see)", "behaviour of bufio.ReadLine on lines longer than its buffer"}
+	r.trusted = append(tbCommon, "encoding/base64, bufio, strconv")
+	ruleCodecAgreement(w, r, "C11.a")
+	ruleParseBodyTotal(w, r, "C11.b", "C11.d")
+	ruleUnmarshalTotal(w, r, "C11.b")
+	ruleStrictInteger(w, r, "C11.c")
+}
